@@ -599,3 +599,147 @@ def replay(ctx, rep):   # noqa: F811
         common.use_repo()
         return common.scenario_replay(ctx, rep, {'syntax-names': syntax_name_scenarios})
     return _replay0(ctx, rep)
+
+
+# ---------------------------------------------------------------------------
+# the SAME resource saved again after edits that shift positions, with NO load in between (whatever save caches
+# must not outlive the save): the second document must load into the edited model (oracle on the implementation)
+
+def resave_scenarios(ctx, out):
+    import os
+    import tempfile
+    from pyecore.ecore import EClass, EAttribute, EReference, EString, EPackage
+    from pyecore.resources import ResourceSet, URI
+    rng = common.rng_for(ctx.seed, 'C08:resave')
+    n = 40 if ctx.tier != 'thorough' else 800
+    cnt = saves = 0
+    pkg = EPackage('rs', nsURI='http://verif/c08/resave', nsPrefix='rs')
+    Node = EClass('Node')
+    Node.eStructuralFeatures.append(EAttribute('name', EString))
+    Node.eStructuralFeatures.append(EReference('kids', Node, upper=-1, containment=True))
+    Node.eStructuralFeatures.append(EReference('slot', Node, containment=True))
+    Node.eStructuralFeatures.append(EReference('fav', Node))
+    Node.eStructuralFeatures.append(EReference('featured', Node, upper=-1))
+    pkg.eClassifiers.append(Node)
+
+    def dump(roots):
+        """positional description: every object by its path, references by target NAME (names are unique)"""
+        d = {}
+
+        def walk(o):
+            d[o.name] = {'kids': [k.name for k in o.kids], 'slot': o.slot.name if o.slot is not None else None,
+                         'fav': o.fav.name if o.fav is not None else None, 'featured': [x.name for x in o.featured]}
+            for k in o.kids:
+                walk(k)
+            if o.slot is not None:
+                walk(o.slot)
+        for r in roots:
+            walk(r)
+        return {'roots': [r.name for r in roots], 'objs': d}
+
+    for it in range(n):
+        serial = [0]
+
+        def new():
+            serial[0] += 1
+            return Node(name=f'n{serial[0]}')
+        with tempfile.TemporaryDirectory() as tmp:
+            rs = ResourceSet()
+            rs.metamodel_registry[pkg.nsURI] = pkg
+            res = rs.create_resource(URI(os.path.join(tmp, 'm.xmi')))
+            roots = [new() for _ in range(rng.choice([1, 1, 2]))]
+            for r in roots:
+                res.append(r)
+            alln = list(roots)
+            hist = []
+
+            def edit():
+                k = rng.choice(['add', 'add', 'front', 'front', 'remove', 'move', 'link', 'link', 'slot', 'root-front'])
+                live = [o for r in res.contents for o in [r] + list(r.eAllContents())]
+                p = rng.choice(live)
+                if k == 'add':
+                    p.kids.append(new())
+                elif k == 'front':
+                    p.kids.insert(0, new())
+                elif k == 'remove' and len(p.kids):
+                    victim = rng.choice(list(p.kids))
+                    gone = [victim] + list(victim.eAllContents())
+                    p.kids.remove(victim)
+                    for o in live:
+                        if o.fav in gone:
+                            o.fav = None
+                        for g in gone:
+                            if g in o.featured:
+                                o.featured.remove(g)
+                elif k == 'move' and len(p.kids):
+                    c = rng.choice(list(p.kids))
+                    q = rng.choice([o for o in live if o is not c and o not in list(c.eAllContents())])
+                    q.kids.insert(rng.randrange(0, len(q.kids) + 1), c)
+                elif k == 'link':
+                    t = rng.choice(live)
+                    if rng.random() < 0.5:
+                        p.fav = t
+                    elif t not in p.featured:
+                        p.featured.append(t)
+                elif k == 'slot' and p.slot is None:
+                    p.slot = new()
+                elif k == 'root-front':
+                    res.contents.insert(0, new()) if False else res.append(new())
+                hist.append(k)
+            for _ in range(rng.randrange(3, 9)):
+                edit()
+            ok = True
+            for trip in range(rng.choice([2, 2, 3])):
+                target = os.path.join(tmp, 'm.xmi') if rng.random() < 0.5 else os.path.join(tmp, f'copy{trip}.xmi')
+                try:
+                    res.save(output=URI(target)) if target != res.uri.plain else res.save()
+                    saves += 1
+                except Exception as e:  # noqa
+                    out.fail({'property': 'C08', 'clause': 'resave-raised', 'trip': min(trip, 1)}, f'save {trip} raised {type(e).__name__}: {e}',
+                             {'scenario': 'resave', 'seed': ctx.seed, 'tier': ctx.tier, 'history': hist + [f'save{trip}']})
+                    ok = False
+                    break
+                want = dump(list(res.contents))
+                hist.append(f'save{trip}')
+                if trip >= 1 or rng.random() < 0.3:
+                    # only now a load (in a fresh resource set): it must give the model as it is NOW
+                    try:
+                        rs2 = ResourceSet()
+                        rs2.metamodel_registry[pkg.nsURI] = pkg
+                        got = dump(list(rs2.get_resource(URI(target)).contents))
+                    except Exception as e:  # noqa
+                        got = {'load-raised': f'{type(e).__name__}: {e}'}
+                    cnt += 1
+                    if got != want:
+                        diff = [k for k in want['objs'] if got.get('objs', {}).get(k) != want['objs'][k]][:3]
+                        out.fail({'property': 'C08', 'clause': 'resaved-document-differs', 'trip': min(trip, 1)},
+                                 f'after {hist[-8:]} the document of save {trip} loads into a different model: '
+                                 f'{[(k, want["objs"][k], got.get("objs", {}).get(k)) for k in diff] or got}',
+                                 {'scenario': 'resave', 'seed': ctx.seed, 'tier': ctx.tier, 'history': list(hist)})
+                        ok = False
+                        break
+                    hist.append('load')
+                for _ in range(rng.randrange(1, 5)):
+                    edit()
+            if not ok:
+                continue
+    out.coverage['resave_documents_loaded_and_compared'] = cnt
+    out.coverage['resave_saves'] = saves
+
+
+_run1 = run
+
+
+def run(ctx, out):   # noqa: F811
+    _run1(ctx, out)
+    resave_scenarios(ctx, out)
+
+
+_replay1 = replay
+
+
+def replay(ctx, rep):   # noqa: F811
+    if rep.get('case', {}).get('scenario') == 'resave':
+        common.use_repo()
+        return common.scenario_replay(ctx, rep, {'resave': resave_scenarios})
+    return _replay1(ctx, rep)
